@@ -425,7 +425,9 @@ Lemma wf_enc_parts t terms rules : wf_enc t terms rules = true ->
   0 <= terms /\
   (forall s, 0 <= s < zlength (d_action t) -> wf_row t terms rules s = true) /\
   (forall nt, 0 <= nt < zlength (d_goto t) - 1 - terms ->
-     wf_seg t (terms + nt) = true /\ exists s0, 0 <= s0 < zlength (d_action t) /\ goto_state t s0 (terms + nt) < 0).
+     wf_seg t (terms + nt) = true /\
+     exists s0, 0 <= s0 < zlength (d_action t) /\
+       (goto_state t s0 (terms + nt) < 0 \/ goto_state t s0 (terms + nt) <> goto_state t 0 (terms + nt))).
 Proof.
   unfold wf_enc, wf_enc_nogap. intro H.
   apply andb_true_iff in H. destruct H as [H H4]. apply andb_true_iff in H. destruct H as [H H3].
@@ -437,8 +439,11 @@ Proof.
     assert (Hin : In (terms + nt) (map (fun i => terms + i) (zseq (zlength (d_goto t) - 1 - terms))))
       by (apply in_map; now apply in_zseq).
     split; [exact (H3 _ Hin)|].
-    specialize (H4 _ Hin). unfold seg_has_gap in H4. apply existsb_exists in H4.
-    destruct H4 as [s0 [Hs0 Hlt]]. apply in_zseq in Hs0. exists s0. split; [exact Hs0|lia].
+    specialize (H4 _ Hin). unfold seg_fallback_ok, seg_has_gap, seg_not_constant in H4.
+    apply orb_true_iff in H4. destruct H4 as [H4|H4]; apply existsb_exists in H4;
+      destruct H4 as [s0 [Hs0 Hp]]; apply in_zseq in Hs0; exists s0; (split; [exact Hs0|]).
+    + left. lia.
+    + right. apply negb_true_iff, Z.eqb_neq in Hp. exact Hp.
 Qed.
 
 Theorem optimize_gotos_agree t terms rules dr : wf_enc t terms rules = true ->
@@ -453,11 +458,12 @@ Proof.
   cbv zeta in Hdec. replace (terms + (x - terms)) with x in * by lia.
   pose proof (goto_line_state t terms (x - terms) s) as Hst.
   pose proof (goto_line_state t terms (x - terms) s0) as Hst0.
+  pose proof (goto_line_state t terms (x - terms) 0) as Hst00.
   replace (terms + (x - terms)) with x in * by lia.
-  specialize (Hst Hseg Hs). specialize (Hst0 Hseg Hs0).
+  specialize (Hst Hseg Hs). specialize (Hst0 Hseg Hs0). specialize (Hst00 Hseg ltac:(lia)).
   destruct Hdec as [Hdec|Hall].
   - rewrite Hdec, Hst. exact Hq.
-  - exfalso. specialize (Hall s0 Hs0). lia.
+  - exfalso. pose proof (Hall s0 Hs0). pose proof (Hall 0 ltac:(lia)). lia.
 Qed.
 
 Theorem optimize_actions_agree t terms rules : wf_enc t terms rules = true ->
@@ -488,3 +494,174 @@ Corollary optimize_decodes_identically t terms rules : wf_enc t terms rules = tr
   (forall s x q, 0 <= s < zlength (d_action t) -> terms <= x < zlength (d_goto t) - 1 ->
      goto_state t s x = q -> 0 <= q -> goto_opt (optimize t terms rules false) terms s x = q).
 Proof. intro H. apply check_enc_sound. now apply optimize_passes_check_enc. Qed.
+
+(* ================= defaultReduce ================= *)
+Lemma zn_map (f : Z -> Z) l i : 0 <= i < zlength l -> zn (map f l) i = f (zn l i).
+Proof.
+  intro H. unfold zn, zlength in *. destruct (i <? 0) eqn:E; [lia|].
+  rewrite (nth_indep _ _ (f (-1000000))) by (rewrite map_length; lia). apply map_nth.
+Qed.
+
+Lemma lalr_find_row l x : forall fuel a,
+  lalr_find fuel l a x = option_map snd (find (fun e => fst e =? x) (lalr_row fuel l a)).
+Proof.
+  induction fuel as [|f IH]; intro a; cbn [lalr_find lalr_row]; [reflexivity|].
+  destruct (zn l a >=? 0); [|reflexivity]. cbn [find fst].
+  destruct (zn l a =? x); [reflexivity|apply IH].
+Qed.
+
+(* the most common reduction of a row (smallest rule on ties), -1 when there is none *)
+Definition dr_step (reds : list Z) : Z * Z -> Z -> Z * Z :=
+  fun '(def, mx) rule => let v := count_of rule reds in if v >? mx then (rule, v) else (def, mx).
+
+Definition dr_def (rules : Z) (reds : list Z) : Z := fst (fold_left (dr_step reds) (zseq rules) (-1, 0)).
+
+Lemma dr_fold_spec reds : forall l d0 m0,
+  let r := fold_left (dr_step reds) l (d0, m0) in
+  m0 <= snd r /\ (forall x, In x l -> count_of x reds <= snd r) /\
+  (r = (d0, m0) \/ (In (fst r) l /\ count_of (fst r) reds = snd r /\ m0 < snd r)).
+Proof.
+  induction l as [|x l IH]; intros d0 m0; cbn [fold_left].
+  - cbn. split; [lia|]. split; [tauto|now left].
+  - cbn [dr_step]. cbv zeta. destruct (count_of x reds >? m0) eqn:E.
+    + destruct (IH x (count_of x reds)) as [H1 [H2 H3]]. cbv zeta in *.
+      set (r := fold_left (dr_step reds) l (x, count_of x reds)) in *.
+      split; [lia|]. split.
+      * intros y [<-|Hy]; [lia|exact (H2 y Hy)].
+      * right. destruct H3 as [->|[H3 [H4 H5]]].
+        -- cbn. split; [now left|]. split; [reflexivity|lia].
+        -- split; [now right|]. split; [exact H4|lia].
+    + destruct (IH d0 m0) as [H1 [H2 H3]]. cbv zeta in *.
+      set (r := fold_left (dr_step reds) l (d0, m0)) in *.
+      split; [lia|]. split.
+      * intros y [<-|Hy]; [lia|exact (H2 y Hy)].
+      * destruct H3 as [H3|[H3 [H4 H5]]]; [now left|]. right. split; [now right|]. split; [exact H4|lia].
+Qed.
+
+Lemma count_of_pos r l : In r l -> 0 < count_of r l.
+Proof.
+  unfold count_of. induction l as [|x l IH]; intro H; [contradiction|]. cbn [filter].
+  destruct H as [->|H].
+  - rewrite Z.eqb_refl. cbn [length]. lia.
+  - specialize (IH H). destruct (r =? x); cbn [length]; lia.
+Qed.
+
+Lemma count_of_nonneg r l : 0 <= count_of r l.
+Proof. unfold count_of. lia. Qed.
+
+(* what the defaultReduce default is, relative to the validator's notion of "most frequent" *)
+Lemma dr_def_spec rules reds : (forall r, In r reds -> 0 <= r < rules) ->
+  (dr_def rules reds = -1 /\ reds = []) \/
+  (0 <= dr_def rules reds < rules /\ is_most_frequent (dr_def rules reds) reds = true).
+Proof.
+  intro Hr. unfold dr_def. destruct (dr_fold_spec reds (zseq rules) (-1) 0) as [H1 [H2 H3]]. cbv zeta in *.
+  set (r := fold_left (dr_step reds) (zseq rules) (-1, 0)) in *.
+  destruct H3 as [H3|[H3 [H4 H5]]].
+  - left. rewrite H3. cbn [fst]. split; [reflexivity|]. rewrite H3 in H2. cbn [snd] in H2.
+    destruct reds as [|x reds]; [reflexivity|]. exfalso.
+    pose proof (count_of_pos x (x :: reds) (or_introl eq_refl)).
+    specialize (H2 x (proj2 (in_zseq _ _) (Hr x (or_introl eq_refl)))). lia.
+  - right. apply in_zseq in H3. split; [exact H3|].
+    unfold is_most_frequent. apply andb_true_iff. split; [lia|].
+    apply forallb_forall. intros x Hx. specialize (H2 x (proj2 (in_zseq _ _) (Hr x Hx))). lia.
+Qed.
+
+Lemma state_next_row_eq_dr t terms rules states s : zn (d_action t) s < -2 ->
+  state_next t terms rules states true s =
+  inr (map (fun v => if v =? -2 - states then dr_def rules (row_reductions t s) else v)
+        (fold_left (fun next e => set_at next (fst e) (row_val t s e))
+           (lalr_row (S (length (d_lalr t))) (d_lalr t) (- zn (d_action t) s - 3))
+           (map (fun _ => -2 - states) (zseq terms)))).
+Proof.
+  intro H. unfold state_next, row_reductions, dr_def.
+  replace (zn (d_action t) s >=? 0) with false by lia. replace (zn (d_action t) s <? -2) with true by lia.
+  replace (zn (d_action t) s =? -1) with false by lia. replace (zn (d_action t) s =? -2) with false by lia.
+  set (row := lalr_row _ _ _).
+  rewrite (fold_left_ext _ (fun next e => set_at next (fst e) (row_val t s e))) by (intros next [term a]; reflexivity).
+  change (fold_left _ (zseq rules) (-1, 0))
+    with (fold_left (dr_step (filter (fun a => 0 <=? a) (map snd row))) (zseq rules) (-1, 0)).
+  destruct (fold_left (dr_step _) (zseq rules) (-1, 0)) as [def mx]. reflexivity.
+Qed.
+
+Lemma act_eqb_refl x : act_eqb x x = true.
+Proof. now apply act_eqb_eq. Qed.
+
+Theorem optimize_cell_ok_dr t terms rules : wf_enc t terms rules = true ->
+  forall s a, 0 <= s < zlength (d_action t) -> 0 <= a < terms ->
+  cell_ok_dr t (optimize t terms rules true) s a = true.
+Proof.
+  intros Hwf s a Hs Ha. destruct (wf_enc_parts _ _ _ Hwf) as [Ht [Hrows _]].
+  pose proof (Hrows s Hs) as Hrow. unfold cell_ok_dr.
+  rewrite action_opt_raw, raw_act_optimize; [|intros next; now apply state_next_len|exact Hs|exact Ha].
+  destruct (Z_lt_le_dec (zn (d_action t) s) (-2)) as [Hlt|Hge].
+  - replace (zn (d_action t) s <? -2) with true by lia.
+    pose proof (wf_row_ok _ _ _ _ Hrow Hlt) as [R1 R2 R3].
+    unfold state_val. rewrite state_next_row_eq_dr by exact Hlt.
+    unfold action_default. replace (zn (d_action t) s <? -2) with true by lia.
+    unfold lalr_lookup. rewrite lalr_walk_row by lia. rewrite lalr_find_row.
+    set (row := lalr_row _ _ _) in *.
+    set (undef := -2 - zlength (d_action t)).
+    assert (Hinit : zlength (map (fun _ => undef) (zseq terms)) = terms)
+      by (unfold zlength; now apply zlength_map_zseq).
+    rewrite zn_map by (unfold zlength in *; rewrite fold_set_at_length; lia).
+    rewrite fold_set_at_zn; [|exact R2|].
+    2:{ intros e He. destruct (R3 e He) as [H1 _]. rewrite Hinit. exact H1. }
+    pose proof (zlength_nonneg (d_action t)) as Hst.
+    destruct (find (fun e => fst e =? a) row) as [e|] eqn:Ef; cbn [option_map].
+    + apply find_some in Ef. destruct Ef as [He Hfa]. apply Z.eqb_eq in Hfa.
+      destruct (R3 e He) as [_ [H2 H3]]. unfold row_val.
+      destruct (snd e =? -1) eqn:E1.
+      * apply Z.eqb_eq in E1. specialize (H3 E1).
+        replace (-2 - goto_state t s (fst e) =? undef) with false by (unfold undef; lia).
+        rewrite decode_raw_shift by lia.
+        replace (snd e >=? 0) with false by lia. rewrite Hfa in *. cbv zeta.
+        replace (goto_state t s a >=? 0) with true by lia. apply act_eqb_refl.
+      * apply Z.eqb_neq in E1. destruct (snd e =? -2) eqn:E2.
+        -- apply Z.eqb_eq in E2. replace (-1 =? undef) with false by (unfold undef; lia).
+           replace (snd e >=? 0) with false by lia. reflexivity.
+        -- apply Z.eqb_neq in E2. replace (snd e =? undef) with false by (unfold undef; lia).
+           unfold decode_raw. replace (snd e >=? 0) with true by lia. apply act_eqb_refl.
+    + rewrite R1. rewrite zn_map_zseq by lia. rewrite (Z.eqb_refl undef).
+      replace (-2 >=? 0) with false by reflexivity. replace (-2 =? -1) with false by reflexivity.
+      replace (-2 =? -2) with true by reflexivity.
+      assert (Hreds : forall r, In r (row_reductions t s) -> 0 <= r < rules).
+      { intros r Hr. unfold row_reductions in Hr. replace (zn (d_action t) s <? -2) with true in Hr by lia.
+        apply filter_In in Hr. destruct Hr as [Hr Hr0]. apply in_map_iff in Hr. destruct Hr as [e [<- He]].
+        destruct (R3 e He) as [_ [H2 _]]. lia. }
+      destruct (dr_def_spec rules _ Hreds) as [[Hd Hnil]|[Hd Hmf]].
+      * rewrite Hd, Hnil. reflexivity.
+      * unfold decode_raw. replace (dr_def rules (row_reductions t s) >=? 0) with true by lia. exact Hmf.
+  - assert (Hsv : state_val t terms rules true s a = state_val t terms rules false s a)
+      by (unfold state_val; now rewrite !state_next_simple by lia).
+    rewrite Hsv, (state_val_default t terms rules s a Ht Hrow Ha).
+    replace (zn (d_action t) s <? -2) with false by lia.
+    destruct (action_default t s a); apply act_eqb_refl.
+Qed.
+
+Theorem optimize_passes_check_enc_dr t terms rules : wf_enc t terms rules = true ->
+  check_enc_dr t (optimize t terms rules true) terms = true.
+Proof.
+  intro Hwf. unfold check_enc_dr. apply andb_true_iff. split.
+  - apply forallb_forall. intros s Hs. apply forallb_forall. intros a Ha.
+    apply in_zseq in Hs, Ha. now apply optimize_cell_ok_dr.
+  - apply forallb_forall. intros s Hs. apply forallb_forall. intros x Hx.
+    apply in_zseq in Hs. apply in_map_iff in Hx. destruct Hx as [i [<- Hi]]. apply in_zseq in Hi.
+    destruct (goto_state t s (terms + i) >=? 0) eqn:E; [|reflexivity].
+    apply Z.eqb_eq. apply (optimize_gotos_agree t terms rules true Hwf); [exact Hs|lia|reflexivity|lia].
+Qed.
+
+Corollary optimize_default_reduce_ok t terms rules : wf_enc t terms rules = true ->
+  forall s a, 0 <= s < zlength (d_action t) -> 0 <= a < terms ->
+  match action_default t s a with
+  | Shift q => action_opt (optimize t terms rules true) s a = Shift q
+  | Reduce r => action_opt (optimize t terms rules true) s a = Reduce r
+  | Deep r => action_opt (optimize t terms rules true) s a = Deep r
+  | Err =>
+      (forall q, action_opt (optimize t terms rules true) s a <> Shift q) /\
+      (zn (d_action t) s < -2 ->
+       (exists v, lalr_find (S (length (d_lalr t))) (d_lalr t) (- zn (d_action t) s - 3) a = Some v) ->
+       action_opt (optimize t terms rules true) s a = Err) /\
+      (forall r, action_opt (optimize t terms rules true) s a = Reduce r ->
+                 is_most_frequent r (row_reductions t s) = true)
+  end.
+Proof. intro H. apply check_enc_dr_sound. now apply optimize_passes_check_enc_dr. Qed.
